@@ -922,7 +922,10 @@ def r01_10_year_starts_vs_year_lengths(ctx: Ctx) -> RuleResult:
             rr.undecided.append(f"{ci.label}: year starts / lengths not evaluable on exact years (table built at run time)")
             continue
         lo, hi = ci.min_year, ci.max_year
-        years = range(lo, hi + 1) if ctx.tier != "quick" else sorted(set(range(lo, min(lo + 3, hi))) | set(range(max(hi - 3, lo), hi + 1)) | set(range(lo, hi, 997)))
+        years = list(range(lo, hi + 1)) if ctx.tier != "quick" else sorted(set(range(lo, min(lo + 3, hi))) | set(range(max(hi - 3, lo), hi + 1)) | set(range(lo, hi, 997)))
+        # the year before the first one as well: the week-year rules (and arithmetic at the boundary) ask about it, and the
+        # calculators "cope with years outside the normal range"; it counts only where both functions evaluate
+        years = [lo - 1] + list(years)
         rr.inst()
         bad = None
         n = 0
